@@ -367,6 +367,82 @@ def check_case(ctx, r, n_conv=2):
     return True
 
 
+def check_reconvert(ctx, r, rng):
+    """A conversion, then a change to the component (props / children, also of nested tags and components), then
+    another conversion: the second result must mirror the changed component (nothing remembered from the first)."""
+    import copy as _c
+
+    r = _c.deepcopy(r)
+    comp = build(r)
+    str(comp)
+    comp.tagify()
+    log = []
+    # nodes reachable as children (not through tagifiables or props): (live, recipe) pairs
+    pairs = []
+
+    def walk(lv, rc):
+        pairs.append((lv, rc))
+        kids = [c for c in flat_kids_raw(rc["c"])]
+        if len(kids) != len(lv.children):
+            return
+        for lc, cc in zip(lv.children, kids):
+            if cc["k"] in ("jsx", "jtag") and not isinstance(lc, (str, ht.MetadataNode)):
+                walk(lc, cc)
+
+    walk(comp, r)
+    for _ in range(rng.randint(1, 3)):
+        lv, rc = rng.choice(pairs)
+        m = rng.choice(["append_text", "append_dep", "set_prop", "extend"])
+        if m == "append_text":
+            lv.append("late text")
+            rc["c"] = rc["c"] + [{"k": "jtext", "s": "late text"}]
+        elif m == "extend":
+            lv.extend(["e1", ht.Tag("i", "e2")])
+            rc["c"] = rc["c"] + [{"k": "jtext", "s": "e1"}, {"k": "jtag", "name": "i", "attrs": [], "c": [{"k": "jtext", "s": "e2"}]}]
+        elif m == "append_dep":
+            lv.append(ht.HTMLDependency("latedep%d" % len(log), "1.0"))
+            rc["c"] = rc["c"] + [{"k": "dep", "name": "latedep%d" % len(log), "version": "1.0"}]
+        elif rc["k"] == "jsx":
+            lv.attrs["late_prop"] = 7
+            rc["props"] = [p for p in rc["props"] if norm(p[0]) != "late-prop"] + [["late_prop", {"p": "num", "v": 7}]]
+        else:
+            lv.attrs["title"] = "late"
+            rc["attrs"] = [a for a in rc["attrs"] if norm(a[0]) != "title"] + [["title", {"t": "str", "s": "late"}]]
+        log.append(m)
+    ctx.count("oracle.reconvert")
+    wit = {"component_after_mutation": r, "mutations": log}
+    t = comp.tagify()
+    try:
+        js, _ = extract_js(t)
+        tree = jsexpr.parse(js)
+    except (ValueError, jsexpr.JSParseError) as e:
+        ctx.violation("jsx-expression-unparsable", "after mutations %s: %s" % (log, e), wit)
+        return False
+    want = exp_node(r)
+    if tree != want:
+        ctx.violation("jsx-stale-after-mutation", "after %s the expression does not mirror the changed component: %s" % (log, _first_diff(tree, want)), dict(wit, js=js[:1200]))
+        return False
+    got_meta = sorted([d.name for d in t.children if isinstance(d, ht.HTMLDependency) and d.name not in ("react", "react-dom")]
+                      + ["<meta>"] * sum(1 for c in t.children if isinstance(c, ht.MetadataNode) and not isinstance(c, ht.HTMLDependency)))
+    if got_meta != sorted(metadata_of(r, [])):
+        ctx.violation("jsx-stale-after-mutation", "after %s the surfaced metadata %r is not that of the changed component" % (log, got_meta), wit)
+        return False
+    if str(comp) != str(t):
+        ctx.violation("jsx-stale-after-mutation", "str(component) after the change differs from its fresh conversion", wit)
+        return False
+    return True
+
+
+def flat_kids_raw(cs):
+    out = []
+    for c in cs:
+        if c["k"] == "list":
+            out.extend(flat_kids_raw(c["c"]))
+        else:
+            out.append(c)
+    return out
+
+
 def _first_diff(a, b, path="$"):
     if type(a) is not type(b):
         return "%s: %r vs %r" % (path, a, b)
@@ -406,7 +482,8 @@ def check_allowed_props(ctx, rng):
 
 
 def replay(ctx, w):
-    check_case(ctx, w["component"], 5)
+    if "component" in w:
+        check_case(ctx, w["component"], 5)
 
 
 def nontrivial(r):
@@ -449,3 +526,5 @@ def run(ctx):
         ctx.state("top_shape", (r["how"], min(len(r["c"]), 3), min(len(r["props"]), 4)))
         if rng.random() < 0.05:
             ctx.guard(check_allowed_props, ctx, rng, witness={"what": "allowedProps"})
+        if rng.random() < 0.2:
+            ctx.guard(check_reconvert, ctx, r, rng, witness={"component": r})
